@@ -83,6 +83,7 @@ def run(ctx):
             b = dict(base(), kex=['curve25519-sha256', 'diffie-hellman-group-exchange-sha256'], key=['ssh-ed25519'], hostkeys={}, dh={'diffie-hellman-group-exchange-sha256': size})
             peers.append(settle(b, ('diffie-hellman-group-exchange-sha256',)))
     recs = reportfam.standard(ctx, 0, peers=peers, parts=('recs', 'items', 'json'))
+    recs += reportfam.cli_records(ctx, rng.sample(peers, min(len(peers), 16 if q else 300)), parts=('recs', 'items', 'json'))   # end to end, both roles
     nontriv = set()
     for r in recs:
         p = r['peer']
